@@ -82,16 +82,14 @@ func Harness_C04_age() {
 	hc.createdAt = obtained
 	hc.expiredAt = obtained + int64(T)
 	ghostClock = obtained
-	status, _ := hc.Get()
-	nowAtGet := ghostClock
+	// what the cache middleware does: the age comes with the hit decision
+	before := ghostClock
+	status, _, age := hc.GetWithAge()
+	after := ghostClock
 	verifAssume(status == StatusHit)
-	age := hc.Age()
-	nowAtAge := ghostClock
 	verifAssert("C04.age-nonneg", age >= 0)
-	// known finding F3: Age() reads the clock again after the hit decision; when the clock has
-	// advanced in between, the reported age can exceed T.  Any other way to exceed T is new.
-	verifAssertKF("C04.age-le-T", age <= T, "F3", nowAtAge != nowAtGet)
-	d := int64(age) - (nowAtAge - obtained)
-	verifAssert("C04.age-within-1s", d >= -1 && d <= 1)
+	verifAssert("C04.age-le-T", age <= T)
+	// within one second of the true time since the response was obtained (at some instant of the request)
+	verifAssert("C04.age-within-1s", int64(age) >= before-obtained-1 && int64(age) <= after-obtained+1)
 	verifReach("C04.age.end")
 }
